@@ -14,38 +14,86 @@
 
   Termination: `loop` is structurally recursive on the remaining iteration budget, which is
   derived from the configured limit (`budget`), so `getNextImf` is total by construction — there is
-  no fuel parameter.  For `fixed` with `max_iters = 0` the real loop does not terminate (outside
-  the documented range `max_iters > 0`); theorems that depend on it carry `0 < o.maxIters`.
+  no fuel parameter.
+
+  RANGE.  For `fixed` with `max_iters = 0` the real loop never terminates (`fixed_stop(niters, 0)` is
+  never true for niters ≥ 1 and the fixed rule has no limit test) — outside the documented range
+  `max_iters > 0`.  The model is total and answers `convergeError` there
+  (`fixed_zero_iters_model_convergeError`): a model artefact, not a behaviour of the code, and no
+  correspondence case touches it (the driver answers `bad-op`).  Every theorem whose conclusion speaks
+  about a run that could be this one carries the range hypothesis
+  `hm : o.stop = .fixed → 0 < o.maxIters` (equivalently `0 < budget o`, `budget_pos_iff`): `run_spec`,
+  `spec_unique`, `convergeError_iff`, `fixed_never_convergeError`, `flag_false_iff`.  The others assume a
+  run that returned (`run … = .stopped/.noExtrema`, `getNextImfIx … = .imf c f`), which already excludes it.
 -/
 import Proofs.Lemmas.Sift
+import Proofs.Lemmas.SiftStop
 
 namespace C04
 open Sift
 
-/-- Each sifting iterate is the previous one minus the step-scaled mean of its envelopes. -/
+/-- Each sifting iterate is the previous one minus the step-scaled mean of its envelopes
+    (the recursion equation of `iter`; its content is `iter_eq_iterate` + `run_spec`). -/
 theorem iter_succ (E : Nat → Sig → Env) (s : Rat) (x : Sig) (k : Nat) (h U L : Sig)
     (hk : iter E s k x = some h) (he : E k h = (some U, some L)) :
     iter E s (k + 1) x = some (Sig.sub h (Sig.smul s (Sig.mean2 U L))) :=
   iter_step E s x k h U L hk he
 
+/-- The spec sequence is the k-fold application of ONE mean-removal step
+    `meanStep E s h = h − s·mean(U h, L h)` (undefined when an envelope is missing) to the input — it
+    involves neither the stopping rule nor the iteration limit nor the energy threshold. -/
+theorem iter_eq_iterate (E : Sig → Env) (s : Rat) (k : Nat) (x : Sig) :
+    iter (fun _ => E) s k x = (fun r : Option Sig => r.bind (meanStep E s))^[k] (some x) :=
+  iter_eq_iterate' E s k x
+
+/-- Consequently the stopping rule (and the iteration limit) influence the returned IMF only through
+    the exit index: two option records with the same step size that stop at the same index return the
+    same component. -/
+theorem stopped_indep_of_rule (E : Nat → Sig → Env) (o o' : ImfOpts) (hs : o.step = o'.step) (x : Sig) (k : Nat)
+    (c c' : Sig) (h : run E o x = .stopped k c) (h' : run E o' x = .stopped k c') : c = c' := by
+  have s1 := run_spec' E o x
+  have s2 := run_spec' E o' x
+  rw [h] at s1; rw [h'] at s2
+  obtain ⟨_, _, g, U, L, a1, a2, _, a4⟩ := s1
+  obtain ⟨_, _, g', U', L', b1, b2, _, b4⟩ := s2
+  rw [hs, b1] at a1; cases a1
+  rw [a2] at b2; cases b2
+  rw [a4, b4]
+
 /-- The loop refines the declarative specification: it leaves
     (a) `stopped k c`: k is the LEAST index at which the rule fires, every earlier iterate had both
         envelopes and did not fire, c = h_k − mean(U h_k, L h_k), and k is within the limit;
     (b) `noExtrema k h`: k is the least index with an undefined envelope, h = h_k, no earlier fire;
-    (c) `noConverge`: only if all `budget o` iterates had envelopes and none fired. -/
-theorem run_spec (E : Nat → Sig → Env) (o : ImfOpts) (x : Sig) : Spec E o x (run E o x) :=
+    (c) `noConverge`: only if all `budget o` iterates had envelopes and none fired.
+    (`hm`: documented range, see the header — for fixed/0 the code does not leave the loop at all.) -/
+theorem run_spec (E : Nat → Sig → Env) (o : ImfOpts) (_hm : o.stop = .fixed → 0 < o.maxIters) (x : Sig) :
+    Spec E o x (run E o x) :=
   run_spec' E o x
 
 /-- …and the specification admits no other outcome (so it characterises the result exactly). -/
-theorem spec_unique (E : Nat → Sig → Env) (o : ImfOpts) (x : Sig) (r : Outcome)
-    (h : Spec E o x r) : r = run E o x :=
-  spec_det E o x r (run E o x) h (run_spec E o x)
+theorem spec_unique (E : Nat → Sig → Env) (o : ImfOpts) (_hm : o.stop = .fixed → 0 < o.maxIters) (x : Sig)
+    (r : Outcome) (h : Spec E o x r) : r = run E o x :=
+  spec_det E o x r (run E o x) h (run_spec' E o x)
+
+/-- The range hypothesis in terms of the iteration budget. -/
+theorem budget_pos_iff (o : ImfOpts) : 0 < budget o ↔ (o.stop = .fixed → 0 < o.maxIters) :=
+  Sift.budget_pos_iff o
+
+/-- OUTSIDE THE RANGE: fixed rule with `max_iters = 0`.  The model has no iteration to perform and
+    answers `convergeError`; the code loops for ever (no limit test for `fixed`, `niters == 0` never
+    holds).  This is the one input on which model and code part; it is excluded by hypothesis above. -/
+theorem fixed_zero_iters_model_convergeError (E : Nat → Sig → Env) (D : Sig → Sig → Rat) (o : ImfOpts)
+    (hf : o.stop = .fixed) (h0 : o.maxIters = 0) (x : Sig) :
+    budget o = 0 ∧ run E o x = .noConverge ∧ getNextImfIx E D o x = .convergeError := by
+  have hb : budget o = 0 := by simp [budget, hf, h0]
+  have hr : run E o x = .noConverge := by unfold run; rw [hb]; rfl
+  exact ⟨hb, hr, by unfold getNextImfIx; rw [hr]; rfl⟩
 
 /-- Bounded by the configured limit: whatever is returned was found at an iterate index ≤ max_iters
     (at most max_iters+1 mean-envelope evaluations; exactly index max_iters−1 for `fixed`, see `fixed_count`). -/
 theorem exit_within_limit (E : Nat → Sig → Env) (o : ImfOpts) (x : Sig) (k : Nat) (c : Sig)
     (hr : run E o x = .stopped k c ∨ run E o x = .noExtrema k c) : k ≤ o.maxIters := by
-  have hs := run_spec E o x
+  have hs := run_spec' E o x
   have hb : budget o ≤ o.maxIters + 1 := by unfold budget; split <;> omega
   rcases hr with hr | hr <;> rw [hr] at hs <;> have := hs.1 <;> omega
 
@@ -53,7 +101,7 @@ theorem exit_within_limit (E : Nat → Sig → Env) (o : ImfOpts) (x : Sig) (k :
 theorem stopped_full_mean (E : Nat → Sig → Env) (o : ImfOpts) (x : Sig) (k : Nat) (c : Sig)
     (hr : run E o x = .stopped k c) :
     ∃ h U L, iter E o.step k x = some h ∧ E k h = (some U, some L) ∧ c = Sig.sub h (Sig.mean2 U L) := by
-  have hs := run_spec E o x
+  have hs := run_spec' E o x
   rw [hr] at hs
   obtain ⟨_, _, h, U, L, h1, h2, _, h4⟩ := hs
   exact ⟨h, U, L, h1, h2, h4⟩
@@ -61,7 +109,7 @@ theorem stopped_full_mean (E : Nat → Sig → Env) (o : ImfOpts) (x : Sig) (k :
 /-- Fixed count n: the rule fires in iteration n exactly (iterate index n−1), never earlier or later. -/
 theorem fixed_count (E : Nat → Sig → Env) (o : ImfOpts) (x : Sig) (k : Nat) (c : Sig)
     (hf : o.stop = .fixed) (hr : run E o x = .stopped k c) : k + 1 = o.maxIters := by
-  have hs := run_spec E o x
+  have hs := run_spec' E o x
   rw [hr] at hs
   obtain ⟨_, _, h, U, L, _, _, h3, _⟩ := hs
   simpa [stopTest, hf] using h3
@@ -70,7 +118,7 @@ theorem fixed_count (E : Nat → Sig → Env) (o : ImfOpts) (x : Sig) (k : Nat) 
 theorem fixed_never_convergeError (E : Nat → Sig → Env) (o : ImfOpts) (x : Sig)
     (hf : o.stop = .fixed) (hm : 0 < o.maxIters) : run E o x ≠ .noConverge := by
   intro hr
-  have hs := run_spec E o x
+  have hs := run_spec' E o x
   rw [hr] at hs
   have hb : budget o = o.maxIters := by simp [budget, hf]
   obtain ⟨h, U, L, _, _, h3⟩ := hs (o.maxIters - 1) (by omega)
@@ -80,18 +128,19 @@ theorem fixed_never_convergeError (E : Nat → Sig → Env) (o : ImfOpts) (x : S
 /-- The convergence error is raised exactly when every iterate within the limit had envelopes and the
     rule fired on none of them (max_iters+1 iterates for sd/rilling: the limit is tested before the
     increment) — the extraction never loops on, and never silently returns an unconverged iterate. -/
-theorem convergeError_iff (E : Nat → Sig → Env) (D : Sig → Sig → Rat) (o : ImfOpts) (x : Sig) :
+theorem convergeError_iff (E : Nat → Sig → Env) (D : Sig → Sig → Rat) (o : ImfOpts)
+    (_hm : o.stop = .fixed → 0 < o.maxIters) (x : Sig) :
     getNextImfIx E D o x = .convergeError ↔ ∀ j, j < budget o → Continues E o x j := by
   constructor
   · intro h
-    have hs := run_spec E o x
+    have hs := run_spec' E o x
     unfold getNextImfIx at h
     cases hr : run E o x with
     | stopped k c => rw [hr] at h; simp [finish] at h
     | noExtrema k g => rw [hr] at h; simp [finish] at h
     | noConverge => rw [hr] at hs; exact hs
   · intro h
-    have : Outcome.noConverge = run E o x := spec_unique E o x _ h
+    have : Outcome.noConverge = run E o x := spec_det E o x _ _ h (run_spec' E o x)
     unfold getNextImfIx
     rw [← this]; rfl
 
@@ -111,7 +160,7 @@ theorem flag_false_iff (E : Nat → Sig → Env) (D : Sig → Sig → Rat) (o : 
   · exact flag_false_unmodified E D o x c he
   · rintro ⟨rfl, hn⟩
     have : Outcome.noExtrema 0 c = run E o c :=
-      spec_unique E o c _ ⟨hb, fun j hj => absurd hj (Nat.not_lt_zero j), rfl, hn⟩
+      spec_det E o c _ _ ⟨hb, fun j hj => absurd hj (Nat.not_lt_zero j), rfl, hn⟩ (run_spec' E o c)
     unfold getNextImfIx
     rw [← this]
     simp [finish, energyFlag, he]
@@ -123,7 +172,7 @@ theorem flag_true_of_modified (E : Nat → Sig → Env) (D : Sig → Sig → Rat
   cases f with
   | true => rfl
   | false =>
-    have hs := run_spec E o x
+    have hs := run_spec' E o x
     unfold getNextImfIx at h
     cases hr : run E o x with
     | stopped k c' => rw [hr] at h; simp [finish, energyFlag, he] at h
@@ -139,7 +188,8 @@ theorem flag_true_of_modified (E : Nat → Sig → Env) (D : Sig → Sig → Rat
     | noConverge => rw [hr] at h; simp [finish] at h
 
 /-- Energy threshold: the flag is the loop's flag AND NOT (energy difference of input vs. residual
-    above the threshold); without a threshold it is the loop's flag. -/
+    above the threshold); without a threshold it is the loop's flag.  (Definitional — the statements
+    with content are `energyFlag_false_iff` and `flag_iff_energy` below.) -/
 theorem energy_flag (D : Sig → Sig → Rat) (o : ImfOpts) (x c : Sig) (f : Bool) :
     energyFlag D o x c f =
       match o.energyThresh with
@@ -154,6 +204,116 @@ theorem energy_flag_le (D : Sig → Sig → Rat) (o : ImfOpts) (x c : Sig) (f : 
   cases he : o.energyThresh with
   | none => simpa [he] using h
   | some t => rw [he] at h; simp at h; exact h.1
+
+/-! ### The stopping rules against their documented formulas
+
+The model writes every float comparison `a/b < t` cross-multiplied (`a < t·b`), which also reproduces
+numpy's inf/nan outcomes for `b = 0`.  These theorems tie the cross-multiplied tests to the documented
+ratios. -/
+
+/-- `sd_stop`: fires iff `Σ(h−x1)² < sd·Σh²`; when `Σh² ≠ 0` iff the documented ratio
+    `Σ(h−x1)²/Σh² < sd`; when `Σh² = 0` never (numpy: 0/0 = nan, x/0 = inf, both `< sd` False). -/
+theorem sdStop_iff (thr : Rat) (h x1 : Sig) :
+    (sdStop thr h x1 = true ↔ Sig.sumSq (Sig.sub h x1) < thr * Sig.sumSq h) ∧
+    (Sig.sumSq h ≠ 0 → (sdStop thr h x1 = true ↔ Sig.sumSq (Sig.sub h x1) / Sig.sumSq h < thr)) ∧
+    (Sig.sumSq h = 0 → sdStop thr h x1 = false) := by
+  have h1 : sdStop thr h x1 = true ↔ Sig.sumSq (Sig.sub h x1) < thr * Sig.sumSq h := by simp [sdStop]
+  refine ⟨h1, fun hne => ?_, fun h0 => ?_⟩
+  · have hpos : 0 < Sig.sumSq h := lt_of_le_of_ne (sumSq_nonneg h) (Ne.symm hne)
+    rw [h1, div_lt_iff₀ hpos]
+  · have := sumSq_nonneg (Sig.sub h x1)
+    simp only [sdStop, h0, mul_zero, decide_eq_false_iff_not, not_lt]
+    exact this
+
+/-- One sample of the Rilling metric, `abs(avg_env)/amp > sd` with `avg_env = (u+l)/2`,
+    `amp = abs(u−l)/2`: for `amp ≠ 0` the model's test `RillingExceeds` IS the documented ratio test;
+    for `amp = 0` (envelopes touch) it holds iff `avg_env ≠ 0` (numpy: x/0 = inf > sd, 0/0 = nan > sd False). -/
+theorem rillingExceeds_iff_ratio (sd u l : Rat) :
+    (u ≠ l → (RillingExceeds sd u l ↔ sd < Rat.abs' ((u + l) / 2) / (Rat.abs' (u - l) / 2))) ∧
+    (u = l → (RillingExceeds sd u l ↔ u ≠ 0)) := by
+  constructor
+  · intro hne
+    have hpos : 0 < Rat.abs' (u - l) / 2 := by
+      have h1 := abs'_nonneg (u - l)
+      have h2 : Rat.abs' (u - l) ≠ 0 := fun h => hne (by have := (abs'_eq_zero_iff _).mp h; linarith)
+      have : 0 < Rat.abs' (u - l) := lt_of_le_of_ne h1 (Ne.symm h2)
+      linarith
+    unfold RillingExceeds
+    rw [lt_div_iff₀ hpos]
+  · rintro rfl
+    unfold RillingExceeds
+    have h0 : Rat.abs' (u - u) = 0 := (abs'_eq_zero_iff _).mpr (by linarith)
+    have h1 : (u + u) / 2 = u := by linarith
+    rw [h0, h1]
+    simp only [zero_div, mul_zero]
+    constructor
+    · intro h hu; rw [hu] at h; simp [Rat.abs'] at h
+    · intro hu
+      exact lt_of_le_of_ne (abs'_nonneg u) (fun h => hu ((abs'_eq_zero_iff u).mp h.symm))
+
+/-- `rilling_stop(upper, lower, sd1, sd2, tol)` with the code's exact comparisons
+    (`mean(eval > sd1) > tol` and `any(eval > sd2)` both False): it fires iff the NUMBER of samples whose
+    metric exceeds `sd1` is at most `tol·N` and no sample exceeds `sd2` (samples = pairs of the two
+    envelopes; N = 0 fires, as numpy's nan > tol is False). -/
+theorem rillingStop_iff (sd1 sd2 tol : Rat) (U L : Sig) :
+    rillingStop sd1 sd2 tol U L = true ↔
+      (((List.zip U L).countP (fun p => decide (RillingExceeds sd1 p.1 p.2)) : Nat) : Rat)
+          ≤ tol * ((List.zip U L).length : Rat) ∧
+      ∀ p ∈ List.zip U L, ¬ RillingExceeds sd2 p.1 p.2 := by
+  unfold rillingStop
+  simp only [rillingBig_eq, count_true_map, List.length_map, Bool.not_eq_true', Bool.or_eq_false_iff,
+    decide_eq_false_iff_not, not_lt, List.any_eq_false, List.mem_map, id_eq, forall_exists_index, and_imp]
+  constructor
+  · rintro ⟨h1, h2⟩
+    refine ⟨h1, fun p hp hex => ?_⟩
+    exact h2 _ p hp rfl (by simpa using hex)
+  · rintro ⟨h1, h2⟩
+    refine ⟨h1, ?_⟩
+    rintro b p hp rfl
+    simpa using h2 p hp
+
+/-- …in the documented form for a non-empty envelope: the FRACTION of samples exceeding `sd1` is ≤ `tol`. -/
+theorem rillingStop_iff_fraction (sd1 sd2 tol : Rat) (U L : Sig) (hne : List.zip U L ≠ []) :
+    rillingStop sd1 sd2 tol U L = true ↔
+      (((List.zip U L).countP (fun p => decide (RillingExceeds sd1 p.1 p.2)) : Nat) : Rat)
+          / ((List.zip U L).length : Rat) ≤ tol ∧
+      ∀ p ∈ List.zip U L, ¬ RillingExceeds sd2 p.1 p.2 := by
+  have hpos : (0 : Rat) < ((List.zip U L).length : Rat) := by
+    have : 0 < (List.zip U L).length := List.length_pos_iff.mpr hne
+    exact_mod_cast this
+  rw [rillingStop_iff, div_le_iff₀ hpos]
+
+/-- `fixed_stop(niters, max_iters)`: fires iff the (1-based) iteration number equals `max_iters`;
+    in particular never when `max_iters = 0` (iteration numbers start at 1). -/
+theorem fixedStop_iff (niters maxIters : Nat) (h x1 U L : Sig) :
+    (stopTest .fixed niters maxIters h x1 U L = true ↔ niters = maxIters) ∧
+    (maxIters = 0 → stopTest .fixed (niters + 1) maxIters h x1 U L = false) := by
+  constructor
+  · simp [stopTest]
+  · rintro rfl; simp [stopTest]
+
+/-- The rule evaluated in the loop is one of these three (dispatch on `stop_method`). -/
+theorem stopTest_dispatch (niters maxIters : Nat) (h x1 U L : Sig) :
+    (∀ thr, stopTest (.sd thr) niters maxIters h x1 U L = sdStop thr h x1) ∧
+    (∀ a b t, stopTest (.rilling a b t) niters maxIters h x1 U L = rillingStop a b t U L) :=
+  ⟨fun _ => rfl, fun _ _ _ => rfl⟩
+
+/-! ### The continue flag with an energy threshold -/
+
+/-- The energy stage clears the flag exactly when it was already cleared or the threshold is set and
+    the energy difference exceeds it (`_energy_difference(X, X − imf) > energy_thresh`, strict). -/
+theorem energyFlag_false_iff (D : Sig → Sig → Rat) (o : ImfOpts) (x c : Sig) (f : Bool) :
+    energyFlag D o x c f = false ↔ f = false ∨ ∃ t, o.energyThresh = some t ∧ t < D x (Sig.sub x c) :=
+  energyFlag_false_iff' D o x c f
+
+/-- THE CONTINUE FLAG, every option record: of a returned `(c, f)` the flag is cleared exactly when
+    the input itself has an undefined envelope (then `c = x`, unmodified) OR the energy threshold is
+    set and exceeded.  (`flag_false_iff` is the `energyThresh = none` instance.) -/
+theorem flag_iff_energy (E : Nat → Sig → Env) (D : Sig → Sig → Rat) (o : ImfOpts) (x c : Sig) (f : Bool)
+    (h : getNextImfIx E D o x = .imf c f) :
+    f = false ↔ (c = x ∧ ((E 0 x).1 = none ∨ (E 0 x).2 = none)) ∨
+      ∃ t, o.energyThresh = some t ∧ t < D x (Sig.sub x c) :=
+  flag_iff_energy' E D o x c f h
 
 /-- The returned component has the length of the input (envelopes having the length of their signal). -/
 theorem result_length (E : Nat → Sig → Env) (hE : EnvLen E) (D : Sig → Sig → Rat) (o : ImfOpts)
@@ -197,6 +357,15 @@ example : getNextImfIx toyE (fun _ _ => 0) (toyO (.sd 0) 1) [4, 8] = .convergeEr
 -- energy threshold clears the flag of a regular stop
 example : getNextImfIx toyE (fun _ _ => 60) { stop := .sd (1/2), step := 1, maxIters := 5, energyThresh := some 50 } [4, 8]
     = .imf [2, 4] false := by decide +kernel
+-- outside the range: fixed rule, max_iters = 0 — the model says convergeError (the code would loop for ever)
+example : getNextImfIx toyE (fun _ _ => 0) (toyO .fixed 0) [4, 8] = .convergeError := by decide +kernel
+example : ¬ ((toyO .fixed 0).stop = .fixed → 0 < (toyO .fixed 0).maxIters) := by simp [toyO]
+-- Rilling rule on three samples with metrics |avg|/amp = 0, 1/3, 1 and sd1 = 1/4 (two samples exceed it)
+example : rillingStop (1/4) 2 (2/3) [1, 2, 1] [-1, -1, 0] = true := by decide +kernel      -- 2 ≤ tol·3 = 2, none exceeds sd2 = 2
+example : rillingStop (1/4) (1/2) (2/3) [1, 2, 1] [-1, -1, 0] = false := by decide +kernel  -- the third sample exceeds sd2 = 1/2
+example : rillingStop (1/4) 2 (1/2) [1, 2, 1] [-1, -1, 0] = false := by decide +kernel      -- 2 > tol·3 = 3/2
+-- the iterates as an iteration of the mean-removal step
+example : (fun r : Option Sig => r.bind (meanStep (toyE 0) 1))^[2] (some [4, 8]) = some [1, 2] := by decide +kernel
 -- toyE satisfies EnvLen
 example : EnvLen toyE := by
   intro k h U L he
